@@ -16,7 +16,7 @@ import numpy as np
 import z3
 
 from mdvc import core, npobj
-from mdvc.core import SReal, rterm
+from mdvc.core import SReal, rterm, term
 from mdvc.pyinterp import Namespace
 from mdvc.verify import contract
 
@@ -383,3 +383,111 @@ def running_moments(ctx, case):
 
 contract("C16", "mdtraj/geometry/src/moments.cpp", "moments_push|moments_clear|moments_mean|moments_second|moments_third", cases=["first-push", "push"], lang="c",
          replay="drid", covers=["pushed"])(running_moments)
+
+
+S1 = z3.Function("S1", z3.IntSort(), z3.RealSort())  # power sums of the reciprocal distances of the first i partners
+S2 = z3.Function("S2", z3.IntSort(), z3.RealSort())
+S3 = z3.Function("S3", z3.IntSort(), z3.RealSort())
+
+
+def drid_moments(ctx, case=None):
+    """drid_moments(coords, index, partners, n): with t_p = 1/|x_index - x_partner[p]| for p < n (all n partners: loop invariant),
+       moments = (mean t, sqrt(mean (t - mean)^2), cbrt(mean (t - mean)^3)); the running-moments object is used through its contract
+       (Rep of `running_moments`): after pushing t_0..t_{i-1} it represents the power sums S1(i), S2(i), S3(i)."""
+    from mdvc import npreal
+    from mdvc.cinterp import AddrOf, CLoopSpec, Ptr, Region, StructObj
+
+    ex = ctx.ex
+    c = ctx.load_c("mdtraj/geometry/src/dridkernels.cpp", ["drid_moments"], include=("mdtraj/geometry/include",))
+    c.struct_types = {"moments_t": ["_n", "_u", "_M2", "_M3"]}
+    coords, partners, mom = Region("coords"), Region("partners", "int"), Region("moments")
+    for r in (coords, partners, mom):
+        r.mem0 = r.mem
+    index, n = ctx.int("index"), ctx.int("n_partners")
+    ctx.assume(index >= 0, n >= 1)
+    I = ctx.int("I")
+    X = lambda a, k: z3.Select(coords.mem0, 3 * a + k)
+    P = lambda i: z3.Select(partners.mem0, i)
+    d2 = lambda i: sum((X(index.t, k) - X(P(i), k)) * (X(index.t, k) - X(P(i), k)) for k in range(3))
+    obj = lambda a: a.ref.get() if isinstance(a, AddrOf) else a
+    pushes = []
+
+    def clear(interp, args):
+        st = obj(args[0])
+        st.fields.update(ghost_n=core.SInt(z3.IntVal(0)), s1=z3.RealVal(0), s2=z3.RealVal(0), s3=z3.RealVal(0))
+
+    def push(interp, args):
+        st = obj(args[0])
+        x = rterm(args[1])
+        pushes.append(x)
+        st.fields.update(ghost_n=st.fields["ghost_n"] + 1, s1=st.fields["s1"] + x, s2=st.fields["s2"] + x * x, s3=st.fields["s3"] + x * x * x)
+
+    def rep(st):
+        nn = z3.ToReal(core.term(st.fields["ghost_n"]))
+        u = st.fields["s1"] / nn
+        return nn, u
+
+    def mean(interp, args):
+        return SReal(rep(obj(args[0]))[1])
+
+    def second(interp, args):
+        st = obj(args[0])
+        nn, u = rep(st)
+        return SReal((st.fields["s2"] - nn * u * u) / nn)
+
+    def third(interp, args):
+        st = obj(args[0])
+        nn, u = rep(st)
+        return SReal((st.fields["s3"] - 3 * u * st.fields["s2"] + 2 * nn * u * u * u) / nn)
+
+    c.call_models.update(moments_clear=clear, moments_push=push, moments_mean=mean, moments_second=second, moments_third=third)
+    g = {}
+
+    def havoc(interp, env, gh):
+        interp.setvar(env, "i", I)
+        st = interp.getvar(env, "onlinemoments")
+        g["st"] = st
+        st.fields.update(ghost_n=core.SInt(I.t), s1=S1(I.t), s2=S2(I.t), s3=S3(I.t))
+        pushes.clear()
+        t = 1 / npreal.SQRT(d2(I.t))
+        # preconditions (instances): the partner is a different position; definitions of the power sums unfolded at I
+        return [I.t >= 0, d2(I.t) > 0, S1(0) == 0, S2(0) == 0, S3(0) == 0,
+                S1(I.t + 1) == S1(I.t) + t, S2(I.t + 1) == S2(I.t) + t * t, S3(I.t + 1) == S3(I.t) + t * t * t]
+
+    def inv(interp, env, gh):
+        i = term(interp.getvar(env, "i"))
+        st = interp.getvar(env, "onlinemoments")
+        if gh.get("entry"):
+            ex.assume(z3.And(S1(0) == 0, S2(0) == 0, S3(0) == 0))
+        return [("0<=i<=n_partners", z3.And(i >= 0, i <= n.t)),
+                ("running-moments-represent-the-first-i-reciprocal-distances", z3.And(core.term(st.fields["ghost_n"]) == i, st.fields["s1"] == S1(i), st.fields["s2"] == S2(i), st.fields["s3"] == S3(i))),
+                ("power-sums:i*S2(i)>=S1(i)^2-and-S2(i)>=0(the-variance-is-non-negative)", z3.And(z3.ToReal(i) * S2(i) >= S1(i) * S1(i), S2(i) >= 0))]
+
+    def at_end(interp, env, gh):
+        ctx.cover("partner-iteration")
+        ex.require("exactly-one-value-pushed-per-partner", z3.BoolVal(len(pushes) == 1))
+        if len(pushes) == 1:
+            ex.require("pushed-value=1/|x_index-x_partner[i]|", pushes[0] == 1 / npreal.SQRT(d2(I.t)))
+        ex.require("frame:coordinates,partner-list-not-written", z3.BoolVal(not coords.writes and not partners.writes))
+
+    def exit_state(interp, env, gh):
+        interp.setvar(env, "i", core.SInt(n.t))
+
+    c.loop_specs[("drid_moments", 0)] = CLoopSpec(havoc, inv, at_end=at_end, exit_state=exit_state)
+    out = ctx.ccall("drid_moments", Ptr(coords, 0), index, Ptr(partners, 0), n, Ptr(mom, 0))
+    ctx.ensure("returns-normally", out.exc is None)
+    if out.exc is not None:
+        return
+    ctx.cover("finished")
+    nn = z3.ToReal(n.t)
+    u = S1(n.t) / nn
+    m0, m1, m2 = (z3.Select(mom.mem, k) for k in range(3))
+    var = (S2(n.t) - nn * u * u) / nn
+    third_c = (S3(n.t) - 3 * u * S2(n.t) + 2 * nn * u * u * u) / nn
+    ctx.ensure("moments[0]=mean-reciprocal-distance", m0 == u)
+    ctx.ensure("moments[1]=sqrt(second-central-moment)", m1 == npreal.SQRT(var))
+    ctx.ensure("moments[2]^3=third-central-moment(cube-root)", m2 * m2 * m2 == third_c)
+    ctx.ensure("exactly-three-results-written", z3.BoolVal(len(mom.writes) == 3))
+
+
+contract("C16", "mdtraj/geometry/src/dridkernels.cpp", "drid_moments", lang="c", replay="drid", covers=["partner-iteration", "finished"])(drid_moments)
